@@ -6,8 +6,10 @@ V=$(cd "$(dirname "$0")" && pwd)
 REPO=${VERIF_REPO:-/repo}
 cd "$V"
 mkdir -p bin evidence replay .work lean/Gen
-cp "$REPO/go.sum" harness/go.sum
-(cd harness && go mod edit -replace github.com/cosmos72/gomacro="$REPO" && go build -tags verif -o "$V/bin/harness" .)
+mkdir -p .work/gomod
+sed "s|^replace github.com/cosmos72/gomacro => .*|replace github.com/cosmos72/gomacro => $REPO|" harness/go.mod > .work/gomod/harness.mod
+cp "$REPO/go.sum" .work/gomod/harness.sum
+(cd harness && go build -modfile="$V/.work/gomod/harness.mod" -tags verif -o "$V/bin/harness" .)
 # regenerate every Gen/*.lean from the current repo before the first lake build
 rm -f lean/Gen/*.lean
 for p in $(./bin/harness list); do ./bin/harness extract -prop "$p" -repo "$REPO" -gen "$V/lean/Gen"; done
